@@ -235,6 +235,12 @@ def stereo_case(rng, swap_only=None, long=False):
         old = rng.choice(singles)
         frags = [f.replace('[$%s]' % old, '[$%s]' % dlab) for f in frags]
         unlabelled = True
+    nonlegacy = False
+    if len(frags) == 2 and rng.random() < 0.35:
+        # one cut only: under the label-insensitive convention (legacy=False) the two halves of the pair may carry
+        # different labels
+        frags[1] = _re.sub(r'\[\$(\w+)\]', lambda m: '[$%sx]' % m.group(1), frags[1])
+        nonlegacy = True
     names = ['F%d' % i for i in range(len(frags))]
     natural = False
     if long or rng.random() < 0.3 or len(frags) == 1:
@@ -263,7 +269,7 @@ def stereo_case(rng, swap_only=None, long=False):
     kinds = sorted({toks[i][1] for i in cuts} | ({'stub'} if cut_stubs else set()) | ({'substituent'} if lig_frags else set()))
     return {'kind': 'stereo', 's': s, 'whole': '{[#M]}.{#M=' + whole + '}', 'cuts': kinds or ['none'],
             'natural': natural, 'reversed_double': reversed_double, 'right_ligand_first': right_ligand_first, 'reversed_ligand': reversed_ligand, 'unlabelled': unlabelled, 'expected': [[a, b, c] for (a, b), c in sorted(expected.items())],
-            'labels': [[l, nb] for l, nb in labels], 'all_atom': True}
+            'labels': [[l, nb] for l, nb in labels], 'all_atom': True, **({'legacy': False, 'ctor': rng.choice(['string', 'fragment-dicts', 'fragment-dicts', 'graph'])} if nonlegacy else {})}
 
 
 def malformed_case(rng):
